@@ -16,8 +16,8 @@ Theorem C16_finite_pairs : forall rows o p, In (o, p) (finite_pairs rows) <-> In
 Proof. exact finite_pairs_in. Qed.
 Print Assumptions C16_finite_pairs.
 
-Theorem C16_nonfinite_rows_ignored : forall a r b p mn, nonfinite r ->
-  baseline_of_rows (a ++ r :: b) p mn = baseline_of_rows (a ++ b) p mn.
+Theorem C16_nonfinite_rows_ignored : forall pl a r b p mn, nonfinite r ->
+  baseline_of_rows_p pl (a ++ r :: b) p mn = baseline_of_rows_p pl (a ++ b) p mn.
 Proof. exact baseline_ignores_nonfinite. Qed.
 Print Assumptions C16_nonfinite_rows_ignored.
 
@@ -27,16 +27,17 @@ Example C16_nonfinite_example :
   baseline_of_rows [(Some 1, Some 2); (Some 3, Some 3)] 1 ex_mn <> None.
 Proof. split; [reflexivity|discriminate]. Qed.
 
-(* ------------------------------------------------------------------ identities, for every series *)
+(* ------------------------------------------------------------------ identities, for every series
+   (and for both division policies: the repository as it stands, [AsCoded], and the proposed repair) *)
 
-Theorem C16_n_mse_sse : forall d p mn, d <> [] ->
-  let m := baseline d p mn in
+Theorem C16_n_mse_sse : forall pl d p mn, d <> [] ->
+  let m := baseline_p pl d p mn in
   b_n m = Z.of_nat (length d) /\ inject_Z (b_n m) * b_mse m == b_sse m /\ b_rmse m = Root false (b_mse m).
 Proof. exact n_mse_sse_l. Qed.
 Print Assumptions C16_n_mse_sse.
 
-Theorem C16_ddof_rmse_adj : forall d p mn, d <> [] ->
-  let m := baseline d p mn in
+Theorem C16_ddof_rmse_adj : forall pl d p mn, d <> [] ->
+  let m := baseline_p pl d p mn in
   b_ddof m = Z.max 1 (b_n m - p) /\ (1 <= b_ddof m)%Z /\
   inject_Z (b_ddof m) * b_rmse_adj_sq m == b_sse m /\ b_rmse_adj m = Root false (b_rmse_adj_sq m).
 Proof. exact ddof_rmse_adj_l. Qed.
@@ -46,14 +47,14 @@ Theorem C16_ddof_autocorr_ge_1 : forall np p, 1 <= ddof_autocorr_of np p.
 Proof. exact ddof_autocorr_ge_1. Qed.
 Print Assumptions C16_ddof_autocorr_ge_1.
 
-Theorem C16_sse_mse_nonneg : forall d p mn, d <> [] ->
-  0 <= b_sse (baseline d p mn) /\ 0 <= b_mse (baseline d p mn) /\ 0 <= b_mae (baseline d p mn).
+Theorem C16_sse_mse_nonneg : forall pl d p mn, d <> [] ->
+  0 <= b_sse (baseline_p pl d p mn) /\ 0 <= b_mse (baseline_p pl d p mn) /\ 0 <= b_mae (baseline_p pl d p mn).
 Proof. exact nonneg_l. Qed.
 Print Assumptions C16_sse_mse_nonneg.
 
 (* |bias| <= MAE <= RMSE (the second one squared) *)
-Theorem C16_bias_mae_rmse : forall d p mn, d <> [] ->
-  let m := baseline d p mn in Qabs (b_mbe m) <= b_mae m /\ b_mae m * b_mae m <= b_mse m.
+Theorem C16_bias_mae_rmse : forall pl d p mn, d <> [] ->
+  let m := baseline_p pl d p mn in Qabs (b_mbe m) <= b_mae m /\ b_mae m * b_mae m <= b_mse m.
 Proof. exact bias_mae_rmse_l. Qed.
 Print Assumptions C16_bias_mae_rmse.
 
@@ -65,11 +66,11 @@ Proof. exact variance_identity_l. Qed.
 Print Assumptions C16_variance_identity.
 
 (* 0 <= R^2 <= 1 and 0 <= rho^2 <= 1 (Cauchy-Schwarz) *)
-Theorem C16_r_squared_bounds : forall d p mn r, b_r2 (baseline d p mn) = Some r -> 0 <= r /\ r <= 1.
+Theorem C16_r_squared_bounds : forall pl d p mn r, b_r2 (baseline_p pl d p mn) = Some r -> 0 <= r /\ r <= 1.
 Proof. exact r2_bounds. Qed.
 Print Assumptions C16_r_squared_bounds.
 
-Theorem C16_autocorr_bounds : forall d p mn neg r2, b_rho (baseline d p mn) = Some (neg, r2) -> 0 <= r2 /\ r2 <= 1.
+Theorem C16_autocorr_bounds : forall pl d p mn neg r2, b_rho (baseline_p pl d p mn) = Some (neg, r2) -> 0 <= r2 /\ r2 <= 1.
 Proof. exact rho_bounds. Qed.
 Print Assumptions C16_autocorr_bounds.
 
@@ -109,8 +110,8 @@ Proof. vm_compute. repeat split; try reflexivity; discriminate. Qed.
 
 (* CVRMSE * mean = RMSE whenever CVRMSE is reported as a root (the same for the adjusted form and for
    PNRMSE over the interquartile range) *)
-Theorem C16_cvrmse_times_mean : forall d p mn neg s,
-  let m := baseline d p mn in
+Theorem C16_cvrmse_times_mean : forall pl d p mn neg s,
+  let m := baseline_p pl d p mn in
   b_cvrmse m = Root neg s ->
   s * (c_mean (b_obs m) * c_mean (b_obs m)) == b_mse m /\ neg = Qltb (c_mean (b_obs m)) 0 /\ ~ c_mean (b_obs m) == 0.
 Proof. exact cvrmse_times_mean_l. Qed.
@@ -199,14 +200,14 @@ Proof. vm_compute. split; reflexivity. Qed.
 (* ------------------------------------------------------------------ hourly model *)
 
 (* the stored baseline metrics are those of the measured (non-interpolated) hours *)
-Theorem C16_hourly_metrics_on_measured_rows : forall rows rows' p mn,
+Theorem C16_hourly_metrics_on_measured_rows : forall pl rows rows' p mn,
   measured_rows rows = measured_rows rows' ->
-  hourly_baseline_metrics rows p mn = hourly_baseline_metrics rows' p mn.
+  hourly_baseline_metrics_p pl rows p mn = hourly_baseline_metrics_p pl rows' p mn.
 Proof. exact hourly_measured_only. Qed.
 Print Assumptions C16_hourly_metrics_on_measured_rows.
 
-Theorem C16_hourly_interpolated_ignored : forall a o q b p mn,
-  hourly_baseline_metrics (a ++ (o, q, true) :: b) p mn = hourly_baseline_metrics (a ++ b) p mn.
+Theorem C16_hourly_interpolated_ignored : forall pl a o q b p mn,
+  hourly_baseline_metrics_p pl (a ++ (o, q, true) :: b) p mn = hourly_baseline_metrics_p pl (a ++ b) p mn.
 Proof. exact hourly_ignores_interpolated. Qed.
 Print Assumptions C16_hourly_interpolated_ignored.
 
@@ -257,6 +258,31 @@ Proof. vm_compute. repeat split; try reflexivity; discriminate. Qed.
 Theorem C16_hourly_gate_refuted : ~ C16_hourly_gate_statement.
 Proof. exact hourly_gate_refuted_l. Qed.
 Print Assumptions C16_hourly_gate_refuted.
+
+(* with the proposed repair of _safe_divide (denominator <= min_denominator -> None) the full statements hold *)
+Theorem C16_repaired_safe_divide : forall num den mn, sdiv Repaired num den mn = safe_divide_spec num den mn.
+Proof. exact sdiv_repaired_statement. Qed.
+Print Assumptions C16_repaired_safe_divide.
+
+Theorem C16_repaired_ratios_undefined : forall d p mn,
+  let m := baseline_p Repaired d p mn in
+  (c_mean (b_obs m) <= mn ->
+     b_nmae m = Undef /\ b_nmbe m = Undef /\ b_cvrmse m = Undef /\ b_cvrmse_adj m = Undef) /\
+  (c_iqr (b_obs m) <= mn ->
+     b_pnmae m = Undef /\ b_pnmbe m = Undef /\ b_pnrmse m = Undef /\ b_pnrmse_adj m = Undef).
+Proof. exact repaired_unsafe_undefined. Qed.
+Print Assumptions C16_repaired_ratios_undefined.
+
+Theorem C16_repaired_hourly_gate : forall d p mn tcv tpn, 0 <= mn ->
+  hourly_disqualified (baseline_p Repaired d p mn) tcv tpn = hourly_disqualified_spec (baseline_p Repaired d p mn) mn tcv tpn.
+Proof. exact hourly_gate_repaired. Qed.
+Print Assumptions C16_repaired_hourly_gate.
+
+Example C16_repaired_example :
+  b_cvrmse (baseline_p Repaired [(-1, -1); (-3, -3)] 1 ex_mn) = Undef /\
+  hourly_disqualified (baseline_p Repaired [(-2, -2); (-2, -2)] 1 ex_mn) (7 # 5) (11 # 5) = true /\
+  b_cvrmse (baseline_p Repaired ex_d 2 ex_mn) = b_cvrmse (baseline ex_d 2 ex_mn).
+Proof. vm_compute. repeat split; reflexivity. Qed.
 
 (* ------------------------------------------------------------------ daily / billing model *)
 
